@@ -294,14 +294,15 @@ fn neighbours(key: &[Val], rng: &mut Rng) -> Vec<Vec<Val>> {
             }
         }
         Val::U(x) => {
-            for v in [x.wrapping_add(1), x.wrapping_sub(1), 0, u64::MAX] {
+            // +-1, the extremes, and the same low bytes with one more significant byte set (a probe wider than the stored width)
+            for v in [x.wrapping_add(1), x.wrapping_sub(1), 0, u64::MAX, x.wrapping_add(1 << 8), x.wrapping_add(1 << 16), x.wrapping_add(1 << 32), x.wrapping_add(1 << 56)] {
                 let mut k = key.to_vec();
                 k[last] = Val::U(v);
                 out.push(k);
             }
         }
         Val::S(x) => {
-            for v in [x.wrapping_add(1), x.wrapping_sub(1), 0, i64::MIN, -*x.max(&(i64::MIN + 1))] {
+            for v in [x.wrapping_add(1), x.wrapping_sub(1), 0, i64::MIN, -*x.max(&(i64::MIN + 1)), x.wrapping_add(1 << 8), x.wrapping_sub(1 << 8), x.wrapping_add(1 << 16), x.wrapping_add(1 << 32), x.wrapping_sub(1 << 32)] {
                 let mut k = key.to_vec();
                 k[last] = Val::S(v);
                 out.push(k);
